@@ -160,6 +160,7 @@ def keyText (ext : Ext) : SVal → Except SerErr Bytes
   | .some k => keyText ext k
   | .newtypeStruct k => keyText ext k
   | _ => .error .keyMustBeAString
+termination_by structural p => p
 
 /-- the number whose text is `bs` -/
 def numOf (bs : Bytes) : DV := .num (Number.splitNumber bs)
@@ -182,32 +183,17 @@ def image (ext : Ext) : SVal → Except SerErr DV
   | .unitStruct => .ok .null
   | .unitVariant v => .ok (.str v)
   | .newtypeStruct p => image ext p
-  | .newtypeVariant v p =>
-    match image ext p with
-    | .ok d => .ok (tagged v d)
-    | .error e => .error e
-  | .seq _ xs | .tuple xs | .tupleStruct xs =>
-    match imageList ext xs with
-    | .ok ds => .ok (.arr ds)
-    | .error e => .error e
-  | .tupleVariant v xs =>
-    match imageList ext xs with
-    | .ok ds => .ok (tagged v (.arr ds))
-    | .error e => .error e
-  | .map _ es =>
-    match imageEntries ext es with
-    | .ok ms => .ok (.obj ms)
-    | .error e => .error e
-  | .struct_ fs =>
-    match imageFields ext fs with
-    | .ok ms => .ok (.obj ms)
-    | .error e => .error e
-  | .structVariant v fs =>
-    match imageFields ext fs with
-    | .ok ms => .ok (tagged v (.obj ms))
-    | .error e => .error e
+  | .newtypeVariant v p => (image ext p).map (tagged v)
+  | .seq _ xs => (imageList ext xs).map .arr
+  | .tuple xs => (imageList ext xs).map .arr
+  | .tupleStruct xs => (imageList ext xs).map .arr
+  | .tupleVariant v xs => (imageList ext xs).map fun ds => tagged v (.arr ds)
+  | .map _ es => (imageEntries ext es).map .obj
+  | .struct_ fs => (imageFields ext fs).map .obj
+  | .structVariant v fs => (imageFields ext fs).map fun ms => tagged v (.obj ms)
   | .collectStr s => .ok (.str s)
   | .numberLit s => .ok (numOf s)
+termination_by structural p => p
 def imageList (ext : Ext) : List SVal → Except SerErr (List DV)
   | [] => .ok []
   | x :: xs =>
@@ -238,6 +224,45 @@ def imageFields (ext : Ext) : List (Bytes × SVal) → Except SerErr (List (Byte
       match imageFields ext fs with
       | .error e => .error e
       | .ok ms => .ok ((n, d) :: ms)
+end
+
+/-! ## the image of a `Value` (what `to_string(&value)` must denote) -/
+
+mutual
+/-- a `Value` as a JSON value: numbers by their printed text (a non-finite float — which `Number`
+    cannot hold — would be `null`), objects in iteration order -/
+def imageOfValue (ext : Ext) : JV → DV
+  | .null => .null
+  | .bool b => .bool b
+  | .num (.pos n) => numOf (ext.itoa n)
+  | .num (.neg n) => numOf (ext.itoa n)
+  | .num (.float b) => if finite64 b then numOf (ext.ryu64 b) else .null
+  | .num (.lit s) => numOf s
+  | .str s => .str s
+  | .arr xs => .arr (imageOfValues ext xs)
+  | .obj kvs => .obj (imageOfMembers ext kvs)
+def imageOfValues (ext : Ext) : List JV → List DV
+  | [] => []
+  | x :: xs => imageOfValue ext x :: imageOfValues ext xs
+def imageOfMembers (ext : Ext) : List (Bytes × JV) → List (Bytes × DV)
+  | [] => []
+  | (k, v) :: kvs => (k, imageOfValue ext v) :: imageOfMembers ext kvs
+end
+
+mutual
+/-- `arbitrary_precision`: every number literal held by the value is an RFC 8259 number (an invariant
+    of `Number`: literals come from the parser, from integers or from `ryu`) -/
+def valueLitsOK : JV → Bool
+  | .num (.lit s) => Number.isNumber s
+  | .arr xs => valuesLitsOK xs
+  | .obj kvs => membersLitsOK kvs
+  | _ => true
+def valuesLitsOK : List JV → Bool
+  | [] => true
+  | x :: xs => valueLitsOK x && valuesLitsOK xs
+def membersLitsOK : List (Bytes × JV) → Bool
+  | [] => true
+  | (_, v) :: kvs => valueLitsOK v && membersLitsOK kvs
 end
 
 end SJ.Spec.Image
